@@ -578,7 +578,7 @@ func main() {
 			}
 			scratch := newAgg()
 			v3, rc3, h3 := execute(s, simrt.ReplayTape(rf.Tape), scratch, true)
-			if v3 != nil {
+			if v3 != nil && v3.Oracle == v.Oracle {
 				rf.Msg = v3.Msg
 			}
 			rf.Instance = rc3.Instance
